@@ -118,10 +118,11 @@ Lemma stale_recovered_repaired :
   go_run 40 w = Some (OPanic [(5, false, Some 4)]%N, [ERecover (Some 2%N)]).
 Proof. split; vm_compute; reflexivity. Qed.
 
-Lemma dropped_panic_witness :
+(* the former witness nested-recover-drops-active-panic: repaired, the machine now agrees with Go *)
+Lemma dropped_panic_repaired :
   let w := mkfunc [IDeferFn [ICall [IDeferFn [IRecover false] []; IPanic 4] [(1, 7%N)]] [];
                    IDeferFn [IPanic 1] [(0, 11%N)]; IPanic 3] [(2, 13%N)] in
-  vm_run 60 w = Some (OPanic [(3, false, Some 13)]%N, [ERecover (Some 4%N)]) /\
+  vm_run 60 w = Some (OPanic [(1, false, Some 11); (3, false, Some 13)]%N, [ERecover (Some 4%N)]) /\
   go_run 60 w = Some (OPanic [(1, false, Some 11); (3, false, Some 13)]%N, [ERecover (Some 4%N)]).
 Proof. split; vm_compute; reflexivity. Qed.
 
@@ -222,7 +223,7 @@ Lemma step_returned_last t A fr junk :
   step t = Next (set_mode t (MNext (length A))).
 Proof.
   intros Hm Hc Hs Ht. unfold step. rewrite Hm. unfold step_next. rewrite Hc, nth_error_mid, Hs.
-  cbv zeta. change (status_eqb Returned Recovered) with false. cbv iota. rewrite Hc.
+  cbv zeta. change (status_eqb Returned Recovered) with false. cbv iota. cbv beta. rewrite Hc.
   rewrite prev_deferred_none by exact Ht. reflexivity.
 Qed.
 
@@ -235,7 +236,7 @@ Proof.
   replace (A ++ d :: fr :: junk) with ((A ++ [d]) ++ fr :: junk) by (rewrite <- app_assoc; reflexivity).
   replace (S (length A)) with (length (A ++ [d])) by (rewrite app_length; simpl; lia).
   rewrite nth_error_mid, Hs.
-  cbv zeta. change (status_eqb Returned Recovered) with false. cbv iota. rewrite Hc.
+  cbv zeta. change (status_eqb Returned Recovered) with false. cbv iota. cbv beta. rewrite Hc.
   replace (A ++ d :: fr :: junk) with ((A ++ [d]) ++ fr :: junk) by (rewrite <- app_assoc; reflexivity).
   unfold prev_deferred. rewrite app_length. simpl. replace (length A + 1) with (S (length A)) by lia.
   rewrite <- app_assoc. simpl. rewrite nth_error_mid, Hd. simpl.
@@ -631,7 +632,7 @@ Qed.
 (* ------------------------------------------------------------------ *)
 (* GoSpec on panic-free trees gives the same trace                      *)
 
-Definition gadd (g : gst) (es : list event) : gst := mkgst (rev es ++ gtr g) [] (gstale g) (gdrop g).
+Definition gadd (g : gst) (es : list event) : gst := mkgst (rev es ++ gtr g) [].
 
 Definition rec_ok (n : nat) (rec : func -> bool -> bool -> gst -> gres) : Prop :=
   forall h b1 b2 g, pf_func h -> fsize h <= n -> gpan g = [] -> rec h b1 b2 g = GNormal (gadd g (pf_trace h)).
@@ -646,18 +647,18 @@ Lemma gadd_pan g es : gpan (gadd g es) = [].
 Proof. reflexivity. Qed.
 
 Lemma g_rundefers_pf n rec bp : rec_ok n rec ->
-  forall ds g ar, Forall pf_callee ds -> Forall (callee_fits n) ds -> gpan g = [] ->
-  g_rundefers rec bp ds false ar g = GNormal (gadd g (tr_defers ds)).
+  forall ds g, Forall pf_callee ds -> Forall (callee_fits n) ds -> gpan g = [] ->
+  g_rundefers rec bp ds false g = GNormal (gadd g (tr_defers ds)).
 Proof.
-  intros Hrec. induction ds as [|d ds IH]; intros g ar Hpf Hfit Hg.
+  intros Hrec. induction ds as [|d ds IH]; intros g Hpf Hfit Hg.
   - simpl. unfold gadd. simpl. destruct g; simpl in *. subst. reflexivity.
   - inversion Hpf as [|? ? Hp1 Hp2]; subst. inversion Hfit as [|? ? Hf1 Hf2]; subst. simpl g_rundefers.
     destruct d as [h|nk].
     + rewrite (Hrec h false bp g Hp1 Hf1 Hg).
-      rewrite (IH (gadd g (pf_trace h)) ar Hp2 Hf2 eq_refl).
+      rewrite (IH (gadd g (pf_trace h)) Hp2 Hf2 eq_refl).
       rewrite gadd_app. reflexivity.
     + destruct nk as [k| | |]; simpl in Hp1; try contradiction.
-      rewrite (IH (gemit g (EBody k)) ar Hp2 Hf2 Hg).
+      rewrite (IH (gemit g (EBody k)) Hp2 Hf2 Hg).
       unfold gadd, gemit, tr_defers. simpl. rewrite <- app_assoc. reflexivity.
 Qed.
 
@@ -715,6 +716,6 @@ Qed.
 Theorem go_run_pf f : pf_func f -> forall m, fsize f <= m -> go_run m f = Some (ONil, pf_trace f).
 Proof.
   intros Hpf m Hm. unfold go_run.
-  rewrite (gfn_pf m f false false (mkgst [] [] false false) Hpf Hm eq_refl).
+  rewrite (gfn_pf m f false false (mkgst [] []) Hpf Hm eq_refl).
   unfold gadd. simpl. rewrite app_nil_r, rev_involutive. reflexivity.
 Qed.
